@@ -82,7 +82,7 @@ package vamana
 //@   safety -overflow
 //@   requires node != nil && iv.parameters.DegreeBound >= 1
 //@   opaque distFn
-//@   modifies node.edges, node.neighbours, node.isDirty, node.isNeighLoaded.v, contents(node.edges), contents(node.neighbours), contents(candidateSet.items)
+//@   modifies node.edges, node.neighbours, node.isDirty, node.isNeighLoaded.v, allcontents(node.edges), allcontents(node.neighbours), contents(candidateSet.items)
 //@   ensures nodeSync(node.edges, node.neighbours) && len(node.edges) <= iv.parameters.DegreeBound && node.Id == old(node.Id)
 //@   ensures forall(k, 0, len(node.edges), node.edges[k] != node.Id)
 //@   ensures forall(k, 0, len(node.edges), exists(i, 0, len(candidateSet.items), node.edges[k] == pid(candidateSet.items[i].Point)))
@@ -110,3 +110,57 @@ package vamana
 //@   ensures err == nil && callres(Exists, 1, 0) && point.Vector == nil ==> len(deletedPointsIds) == old(len(deletedPointsIds)) + 1 && deletedPointsIds[len(deletedPointsIds)-1] == point.Id && len(updatedPoints) == old(len(updatedPoints))
 //@   ensures err == nil && !callres(Exists, 1, 0) && point.Vector == nil ==> skip && len(updatedPoints) == old(len(updatedPoints)) && len(deletedPointsIds) == old(len(deletedPointsIds)) && v.maxNodeId.v == old(v.maxNodeId.v)
 //@   ensures forallv(k uint64, old(contains(toRemoveInBoundNodeIds, k)) ==> contains(toRemoveInBoundNodeIds, k))
+
+// ---- graph search (property C03) ----
+// Distance sets as the search sees them: every item of a set after a call is an item it had
+// before or one of the points handed in (nothing else can appear in a set).
+//@ func NewDistSet
+//@   trusted
+//@   pure
+//@   allocates
+//@   ensures len(result.items) == 0 && cap(result.items) == capacity && result.sortedUntil == 0 && fresh(result.items)
+//@ func (*DistSet).AddWithLimit
+//@   trusted
+//@   modifies ds.items, ds.sortedUntil, contents(ds.items)
+//@   ensures len(ds.items) <= cap(ds.items) && cap(ds.items) == old(cap(ds.items)) && len(ds.items) >= old(len(ds.items))
+//@   ghostmap fromOld fromGiven
+//@   ensures forall(k, 0, len(ds.items), (0 <= fromOld(k) && fromOld(k) < old(len(ds.items)) && ds.items[k].Point == old(ds.items[fromOld(k)].Point)) || (0 <= fromGiven(k) && fromGiven(k) < len(points) && ds.items[k].Point == points[fromGiven(k)]))
+//@   ensures old(forall(k, 0, len(ds.items)-1, ds.items[k].Distance <= ds.items[k+1].Distance)) ==> forall(k, 0, len(ds.items)-1, ds.items[k].Distance <= ds.items[k+1].Distance)
+//@ func (*DistSet).Add
+//@   trusted
+//@   modifies ds.items, contents(ds.items)
+//@   ensures len(ds.items) >= old(len(ds.items))
+//@   ghostmap fromOld fromGiven
+//@   ensures forall(k, 0, len(ds.items), (0 <= fromOld(k) && fromOld(k) < old(len(ds.items)) && ds.items[k].Point == old(ds.items[fromOld(k)].Point)) || (0 <= fromGiven(k) && fromGiven(k) < len(points) && ds.items[k].Point == points[fromGiven(k)]))
+//@ func (*DistSet).AddAlreadyUnique
+//@   trusted
+//@   modifies ds.items, contents(ds.items)
+//@ func (*DistSet).Release
+//@   trusted
+//@   modifies ds.set
+//@ func (*DistSet).Sort
+//@   trusted
+//@   modifies ds.sortedUntil, contents(ds.items)
+//@ func (*graphNode).LoadNeighbours
+//@   trusted
+//@   modifies g.neighbours, g.isNeighLoaded.v
+//@   requires unheld(g.neighLoadMu)
+//@   ensures unheld(g.neighLoadMu)
+
+// greedySearch, filter gating (stated at the call sites): whenever a pre-filter is given, the set
+// that is returned as the result (resultSet) is only ever handed points the filter contains -
+// the seeded filter members and a visited node for which filter.Contains holds. Together with
+// "a set only holds what it had or was given" this keeps every result inside the filter.
+//@ func (*IndexVamana).greedySearch
+//@   property C03
+//@   floats order
+//@   safety -overflow -nil -makelen -index
+//@   requires v.nodeStore != nil && unheld(v.nodeStore.itemsMu) && v.nodeStore.items != nil && forallv(k2 uint64, contains(v.nodeStore.items, k2) ==> v.nodeStore.items[k2] != nil)
+//@   after Get assume err != nil || (value != nil && value.Id == arg1 && unheld(value.edgesMu) && unheld(value.neighLoadMu))
+//@   before AddWithLimit requires arg0 == resultSet && filter != nil ==> forall(j, 0, len(arg1), bhas(filter, pid(arg1[j])))
+//@   before Add requires arg0 != resultSet || filter == nil
+//@   before AddAlreadyUnique requires arg0 != resultSet || filter == nil
+//@   ensures result2 == nil ==> ncalls(Sort) == 1
+//@   loop 1 invariant i >= 0 && itersrc(iter) == filter && filter != nil && forall(j, 0, len(filterK), bhas(filter, filterK[j]))
+//@   loop 2 invariant v.nodeStore != nil && unheld(v.nodeStore.itemsMu) && v.nodeStore.items != nil && forallv(k2 uint64, contains(v.nodeStore.items, k2) ==> v.nodeStore.items[k2] != nil)
+//@   loop 2 invariant resultSet != nil && (filter == nil ==> resultSet == &searchSet) && (filter != nil ==> resultSet != &searchSet && resultSet != &visitedSet)
